@@ -179,6 +179,18 @@ def run(ctx):
                                   {"op": op, "impl": r, "spec": sp})
             nontrivial.add((f[0], min(len(bs), 11), r.split()[0] + (r.split()[1] if r.startswith("err") else "")))
 
+    # --- results are the caller's: a later call must not return storage an earlier result still owns
+    aops = []
+    for kind in ("u32", "u64", "s32", "s64"):
+        for v in [0, 1, -1, 5, 62, 63, 64, -63, -64, -65, 126, 127, 128, 255, 8191, 8192, 16383, 16384, 1 << 31, -(1 << 31)] + \
+                 [ctx.rng.randrange(-(1 << 40), 1 << 40) for _ in range(40)]:
+            aops.append("alias %s %d" % (kind, v))
+    _, aout, _ = ctx.run_bin(harness, input_text="\n".join(aops) + "\n")
+    for op, r in zip(aops, aout.splitlines() + ["(no answer)"] * len(aops)):
+        if r != "ok":
+            ctx.violation("enc:result-shares-storage-with-later-results", "%s -> %s" % (op, r), {"op": op, "impl": r})
+    dist["alias_histories"] = len(aops)
+
     # --- correspondence with the Lean model
     if model:
         rcm, mout, _ = ctx.run_bin(model, input_text="\n".join(allops) + "\n")
